@@ -32,6 +32,8 @@ type scriptedRouter struct {
 	quit      chan struct{}
 	qonce     sync.Once
 	deaf      chan struct{} // closed when the router side stops taking messages from the client
+	hold      chan struct{} // non-nil while paused
+	pauseSig  chan struct{}
 	donce     sync.Once
 	sendMu    chan struct{} // serialises sends (channel semaphore: durable blocking)
 	down      bool          // router side closed by the script
@@ -42,9 +44,47 @@ type scriptedRouter struct {
 	auto func(m wamp.Message) []wamp.Message
 }
 
+// Pause makes the router side stop taking messages from the client until Unpause (a transport whose
+// peer is slow: what the client sends meanwhile waits in its hands).
+func (s *scriptedRouter) Pause() {
+	s.mu.Lock()
+	if s.hold == nil {
+		s.hold = make(chan struct{})
+	}
+	s.mu.Unlock()
+	select {
+	case s.pauseSig <- struct{}{}:
+	default:
+	}
+}
+
+func (s *scriptedRouter) Unpause() {
+	s.mu.Lock()
+	if s.hold != nil {
+		close(s.hold)
+		s.hold = nil
+	}
+	s.mu.Unlock()
+}
+
 func (s *scriptedRouter) reader() {
 	for {
+		s.mu.Lock()
+		h := s.hold
+		s.mu.Unlock()
+		if h != nil {
+			select {
+			case <-h:
+			case <-s.deaf:
+				return
+			case <-s.quit:
+				return
+			}
+			continue
+		}
 		select {
+		case <-s.pauseSig:
+			continue
 		case m, ok := <-s.peer.Recv():
 			if !ok {
 				s.mu.Lock()
@@ -218,7 +258,7 @@ func newClientWorld(c *Case, tmo time.Duration, queue int) *clientWorld {
 func newClientWorldOpt(c *Case, tmo time.Duration, queue int, features bool) *clientWorld {
 	cliPeer, rtrPeer := transport.LinkedPeersQSize(queue)
 	w := &clientWorld{log: sim.NewLogBuf(200), start: time.Now(), tmo: tmo}
-	w.rtr = &scriptedRouter{peer: rtrPeer, start: w.start, quit: make(chan struct{}), deaf: make(chan struct{}), sendMu: make(chan struct{}, 1)}
+	w.rtr = &scriptedRouter{peer: rtrPeer, start: w.start, quit: make(chan struct{}), deaf: make(chan struct{}), pauseSig: make(chan struct{}, 1), sendMu: make(chan struct{}, 1)}
 	go w.rtr.reader()
 	var cerr error
 	done := make(chan struct{})
